@@ -100,13 +100,6 @@ func (c *ctxT) c19KeyPrefix(method string) int {
 	return -1
 }
 
-func leanStrs(xs []string) string {
-	var ys []string
-	for _, x := range xs {
-		ys = append(ys, leanStr(x))
-	}
-	return leanList(ys)
-}
 
 func extractC19(c *ctxT) {
 	var sb strings.Builder
